@@ -56,6 +56,19 @@ class Contribution:
     node: ast.AST | None = None  # event / comprehension / literal
     kind: str = "add"  # add | remove
     how: str = ""  # append, add, comp, subscript-store, subscript-load (d[k].append), setdefault, literal, root, ...
+    nlocal: int = -1  # how many of the (trailing) conds guard the event itself; the leading ones filter composed sources
+
+    def __post_init__(self) -> None:
+        if self.nlocal < 0:
+            self.nlocal = len(self.conds)
+
+    @property
+    def own_conds(self) -> list:
+        return self.conds[len(self.conds) - self.nlocal:] if self.nlocal else []
+
+    @property
+    def source_conds(self) -> list:
+        return self.conds[: len(self.conds) - self.nlocal]
 
     def text(self) -> str:
         b = ", ".join(f"{norm(x.target)} in {norm(x.source, 60)}" for x in self.binders)
@@ -352,8 +365,10 @@ class Collections:
             b = self._describe(e.orelse, depth - 1, busy)
             for c in a.contribs:
                 c.conds = [(self.x(e.test), True)] + c.conds
+                c.nlocal += 1
             for c in b.contribs:
                 c.conds = [(self.x(e.test), False)] + c.conds
+                c.nlocal += 1
             a.extend(b)
             return a
         if isinstance(e, ast.Subscript) and isinstance(e.slice, ast.Slice) and e.slice.lower is None and e.slice.upper is None and e.slice.step is None:
@@ -517,13 +532,13 @@ class Collections:
                 out.removals += sub.removals
             if len(sub.contribs) == 1 and sub.contribs[0].how == "root":
                 # the source is a root itself
-                c.binders[idx] = Binder(b.target, src, b.loop, True)
+                c.binders[idx] = Binder(b.target, sub.contribs[0].binders[0].source, b.loop, True)
                 work.insert(0, c)
                 continue
             for ci in sub.contribs:
                 if ci.how == "root":
                     rb = ci.binders[0]
-                    nc = Contribution(c.elt, c.value, c.binders[:idx] + [Binder(b.target, rb.source, b.loop, True)] + c.binders[idx + 1:], list(c.conds), c.context, c.node, c.kind, c.how)
+                    nc = Contribution(c.elt, c.value, c.binders[:idx] + [Binder(b.target, rb.source, b.loop, True)] + c.binders[idx + 1:], list(c.conds), c.context, c.node, c.kind, c.how, c.nlocal)
                     work.insert(0, nc)
                     continue
                 env = self._match_target(b.target, ci)
@@ -560,6 +575,7 @@ class Collections:
                     c.node,
                     c.kind,
                     c.how,
+                    c.nlocal,
                 )
                 work.insert(0, nc)
         return out
